@@ -10,6 +10,11 @@ GROUPS = [
          replay=dict(RL, name="find_end_node_replay", entry="r_find_end_node"),
          bounded="<= 3 nodes with symbolic first/last end frames and entry flags, no word ending in the last frame"),
 ]
+NATIVE = [
+    dict(name="e2e_invariants", source="native/e2e_invariants.c", repo_sources="ALL_EXCEPT:", cflags=["-w", "-fsanitize=address"],
+         args={"quick": ["C11"], "thorough": ["C11"]}, exhaustive=False,
+         bound="end-to-end invariants of this property on ~12 real decodes (bundled en-us / fr-fr models; goforward recordings with JSGF grammar, FSG file and forced-alignment text; one call, 2048-sample blocks with partial results, float32; digital silence; white noise) under AddressSanitizer -- a safety net under the contracts, not a proof"),
+]
 ASSUMPTIONS = [
     "element allocators hand out fresh zeroed objects (stub)",
     "node lists of <= 3 nodes (linked lists cannot carry loop contracts in CBMC)",
@@ -18,5 +23,5 @@ HAND_LEMMAS = ["acyclicity: every lattice_link call of fsg_search_lattice joins 
 NOT_COVERED = ["the link-building loops of fsg_search_lattice (time adjacency t -> t+1, grammar adjacency of linked words)", "find_start_node, the multi-candidate branch of find_end_node, unreachable-node removal", "first-best path contained in the lattice", "single start / end node"]
 CLAIM = dict(
     text="Local facts only: asking for the lattice again over the same number of frames returns the cached object and touches nothing (proved, empty frame); node identity is the full key (start frame, word, grammar state): new_node never duplicates a key, a differing grammar state gives a distinct node, an existing node only widens its end-frame range and keeps its best exit score; lattice_link keeps one link per ordered node pair with the best score in both forward and reverse lists (bounded: <= 3 nodes); when no word ends in the last frame the end node chosen is the node with entries that exits last (bounded). Global well-formedness (acyclic, single start/end, every node on a path, grammar paths) is NOT decided.",
-    note="cache identity proof + bounded node/link checks; link-building loops, start/end node selection, reachability pruning not covered; trusted: CBMC 6.11",
-    technique="CBMC function contract (goto-instrument --dfcc) for the cache clause; CBMC bounded unwinding with unwinding assertions for the list code")
+    note="cache identity proof + bounded node/link checks; link-building loops, start/end node selection, reachability pruning not covered; trusted: CBMC 6.11; end-to-end invariants on ~12 real decodes by a bounded native run (native/e2e_invariants.c), never counted as proved",
+    technique="CBMC function contract (goto-instrument --dfcc) for the cache clause; CBMC bounded unwinding with unwinding assertions for the list code; plus a bounded native run of the property's end-to-end invariants on real decodes (safety net, not proof)")
